@@ -229,11 +229,12 @@ def case_proj(hist):
         cmp_obj(v, "proj/assoc", cls, AB @ Y[k - 2], data_of(Y[k]), aux_of(Y[k]), TOL_EXACT)
         t += 2
     if k >= 3:
-        left = (Ts[2] @ Ts[1]) @ Ts[0]
-        right = Ts[2] @ (Ts[1] @ Ts[0])
+        # the last three transformations of the word, acting on the state three steps back
+        left = (Ts[k - 1] @ Ts[k - 2]) @ Ts[k - 3]
+        right = Ts[k - 1] @ (Ts[k - 2] @ Ts[k - 3])
         if not close(left.proj_data, right.proj_data, TOL_EXACT):
             v.append(V("proj/assoc/transformations", "(A@B)@C != A@(B@C)"))
-        cmp_obj(v, "proj/assoc3", cls, left @ X, data_of(Y[k]), aux_of(Y[k]), TOL_EXACT)
+        cmp_obj(v, "proj/assoc3", cls, left @ Y[k - 3], data_of(Y[k]), aux_of(Y[k]), TOL_EXACT)
         t += 5
     # identity
     cmp_obj(v, "proj/identity", cls, P.identity(root["d"]) @ Y[k], data_of(Y[k]), aux_of(Y[k]), TOL_EXACT)
@@ -432,7 +433,12 @@ def derived_checks(v, cls, obj, n):
     d = obj.proj_data
     if cls == "Segment":
         e = pair_err_unordered(obj.aux_data, ideal_endpoints(d))
-        if e > TOL_SIN:
+        # endpoints moved far from the origin are nearly parallel as vectors of R^(n,1): the null points of
+        # their span are then only determined to eps * cosh^2(distance from the origin)
+        dd = np.asarray(d, dtype=float)
+        q = np.abs(hyp.mink(dd, dd))
+        c = float(np.max(np.sqrt(np.sum(dd * dd, axis=-1) / np.where(q > 0, q, 1.0)))) if np.all(q > 1e-12) else 1.0
+        if e > TOL_SIN * max(1.0, c * c / 50.0):
             v.append(V("hyp/derived/Segment/ideal-endpoints", "stored ideal endpoints are not the null points of the line through the endpoints (sin err %.3g)" % e))
         got = obj.ideal_endpoint_coords("klein")
         exp = hyp.to_klein("projective", ideal_endpoints(d))
@@ -513,8 +519,8 @@ def case_hyp(hist):
         cmp_rows(v, "hyp/assoc", cls, AB @ Y[k - 2], Y[k].proj_data, Y[k].aux_data)
         t += 2
     if k >= 3:
-        left = (Ts[2] @ Ts[1]) @ Ts[0]
-        cmp_rows(v, "hyp/assoc3", cls, left @ X, Y[k].proj_data, Y[k].aux_data)
+        left = (Ts[k - 1] @ Ts[k - 2]) @ Ts[k - 3]
+        cmp_rows(v, "hyp/assoc3", cls, left @ Y[k - 3], Y[k].proj_data, Y[k].aux_data)
         t += 3
     cmp_rows(v, "hyp/identity", cls, H.identity(n) @ Y[k], Y[k].proj_data, Y[k].aux_data)
     t += 1
@@ -933,7 +939,9 @@ def case_mixed(case):
 
 # ------------------------------------------------------------------------------------------------
 def run(ctx):
-    q = ctx.quick
+    # the former thorough bounds take ~15 s on 16 cores: they are the quick tier now; thorough goes one level deeper
+    deep = not ctx.quick
+    q = False
     only = getattr(ctx, "only", None)
 
     def want(name):
@@ -963,7 +971,7 @@ def run(ctx):
     ctx.tolerances["inverse"] = "1e-9*(1+max|v|): np.linalg.inv of a unimodular matrix carries a few ulps"
     ctx.tolerances["projective rows"] = "sine of the angle between rows <= 1e-8 (entries <= ~50, errors measured 1e-15..1e-13; defects >= 1e-3)"
     ctx.tolerances["ideal coordinates"] = "1e-6 class (sqrt of a cancelling difference), DESIGN 4.3"
-    depth = 2 if q else 3
+    depth = 4 if deep else 3
     if want("projective"):
         roots = [[{"d": d, "cls": c, "shape": s, "cx": cx}] for d in (1, 2, 3) for c in PROJ_CLASSES for s in SHAPES
                  for cx in (False, True)]
